@@ -37,19 +37,35 @@ def build_network():
     ])
 
 
+def build_thermal_network():
+    """a network with a cooling process: the gas temperature is one more equation after the species"""
+    import_naunet()
+    from naunet.network import Network
+    from naunet.reactions.reaction import Reaction
+    from naunet.reactiontype import ReactionType
+    return Network([
+        Reaction(["H", "e-"], ["H+", "e-", "e-"], alpha=1e-10, reaction_type=ReactionType.GAS_TWOBODY),
+        Reaction(["H+", "e-"], ["H"], alpha=1e-11, reaction_type=ReactionType.GAS_TWOBODY),
+    ], cooling=["CIC_HI", "RC_HII"])
+
+
 def build_binaries(ctx: Ctx) -> dict[str, Path]:
     net = build_network()
+    thnet = build_thermal_network()
     jobs = {}
     for key, solver, method, drv, flags in [
+        ("dense_th", "cvode", "dense", "solve_driver_cvode.cpp", []),
+        ("sparse_th", "cvode", "sparse", "solve_driver_cvode.cpp", []),
+        ("odeint_th", "odeint", "rosenbrock4", "solve_driver_odeint.cpp", []),
         ("dense", "cvode", "dense", "solve_driver_cvode.cpp", []),
         ("sparse", "cvode", "sparse", "solve_driver_cvode.cpp", []),
         ("sparse_py", "cvode", "sparse", "solve_driver_cvode.cpp", ["-DPYMODULE", "-DPYMODNAME=nv"]),
         ("odeint", "odeint", "rosenbrock4", "solve_driver_odeint.cpp", []),
         ("odeint_py", "odeint", "rosenbrock4", "solve_driver_odeint.cpp", ["-DPYMODULE", "-DPYMODNAME=nv"]),
     ]:
-        d = ctx.sub(f"proj_{solver}_{method}")
+        d = ctx.sub(f"proj_{key}")
         if not (d / "src").exists():
-            render(net, solver, method, d)
+            render(thnet if key.endswith("_th") else net, solver, method, d)
         jobs[key] = (d, drv, flags)
 
     def comp(item):
@@ -60,7 +76,7 @@ def build_binaries(ctx: Ctx) -> dict[str, Path]:
         return key, out, p
 
     bins = {}
-    with ThreadPoolExecutor(5) as ex:
+    with ThreadPoolExecutor(8) as ex:
         for key, out, p in ex.map(comp, jobs.items()):
             if p.returncode != 0:
                 # the generated sources do not compile against the documented API: that is a finding of its own
@@ -311,7 +327,7 @@ def code_to_spec(ctx: Ctx, bins, n: int, cov: dict):
     scripts = [script_line(i + 1, o, r) for i, (o, r) in enumerate(cases)]
     total = acc = 0
     nontrivial = set()
-    for key in ("dense", "sparse"):
+    for key in ("dense", "sparse", "dense_th", "sparse_th"):
         if key not in bins:
             continue
         runs = run_cvode(ctx, bins[key], scripts, f"rand_{key}")
@@ -372,14 +388,17 @@ def odeint_part(ctx: Ctx, bins, cov: dict):
         mx = rng.randint(0, 300)
         combos.append((rng.randint(1, 2 * mx + 3), mx))
     combos = sorted(set(combos))
+    # the same budgets installed by Reset after an Init with ANOTHER budget (the default 500 and a small one): the budget of the last
+    # configuring call is the one Solve works with
+    combos = [(need, mx, -1) for need, mx in combos] + [(need, mx, pre) for need, mx in combos[::3] for pre in (500, 20) if pre != mx]
     traces = []
     tid = 0
-    for key, wrapper in (("odeint", False), ("odeint_py", True)):
+    for key, wrapper in (("odeint", False), ("odeint_py", True), ("odeint_th", False)):
         if key not in bins:
             continue
         f = ctx.scratch / f"oscripts_{key}.txt"
         base = tid
-        f.write_text("".join(f"{base + i + 1} {float(T)!r} {Y0!r} {need} {mx}\n" for i, (need, mx) in enumerate(combos)))
+        f.write_text("".join(f"{base + i + 1} {float(T)!r} {Y0!r} {need} {mx} {pre}\n" for i, (need, mx, pre) in enumerate(combos)))
         p = subprocess.run([str(bins[key]), str(f), str(ctx.sub(f"orun_{key}"))], capture_output=True, text=True, timeout=600)
         if p.returncode != 0:
             raise MachineryError(f"odeint driver failed: {p.stderr[-1000:]}")
@@ -435,7 +454,7 @@ def apalache_unbounded(ctx: Ctx, cov: dict):
                             "APA_Solve.tla"], cwd=d, capture_output=True, text=True, timeout=1200)
         out = p.stdout + p.stderr
         return job, ("EXITCODE: OK" in out), ("The outcome is: Error" in out), out[-1500:]
-    with ThreadPoolExecutor(5) as ex:
+    with ThreadPoolExecutor(8) as ex:
         res = list(ex.map(one, jobs))
     held = 0
     for (v, init, inv, length), ok, cex, tail in res:
